@@ -316,6 +316,72 @@ ReJunkLines(b, f) ==
            [fam |-> "rejunk", tag |-> "constructor", src |-> <<110, 101, 119, 32, 82, 101, 103, 69, 120, 112, 40>> \o S!StrSrc(b) \o <<44, 32>> \o S!StrSrc(f) \o <<41, 59>>,
             exp |-> Cls("skip"), dev |-> <<>>, bug |-> "", run |-> ctor] >>
 
+-----------------------------------------------------------------------------
+(* family "idesc" (7.6): IdentifierNames whose first / later characters are    *)
+(* written raw or as \uXXXX escapes, over the code point classes of 7.6:        *)
+(*   "start": IdentifierStart = UnicodeLetter (Lu Ll Lt Lm Lo Nl) $ _            *)
+(*   "part":  IdentifierPart only = UnicodeCombiningMark (Mn Mc), UnicodeDigit   *)
+(*            (Nd), UnicodeConnectorPunctuation (Pc), <ZWNJ>, <ZWJ>              *)
+(*   "none":  no identifier character                                           *)
+(* An escape contributes its character; the rule for its position applies to    *)
+(* that character (7.6: "cannot be used to put a character into an              *)
+(* IdentifierName that would otherwise be illegal").                            *)
+IdProbes == <<
+    [u |-> 97, c |-> "start"], [u |-> 90, c |-> "start"], [u |-> 36, c |-> "start"], [u |-> 95, c |-> "start"],          \* a Z $ _
+    [u |-> 233, c |-> "start"], [u |-> 969, c |-> "start"], [u |-> 20013, c |-> "start"], [u |-> 453, c |-> "start"],    \* Ll Ll Lo Lt
+    [u |-> 688, c |-> "start"], [u |-> 8544, c |-> "start"],                                                               \* Lm (U+02B0), Nl (U+2160)
+    [u |-> 48, c |-> "part"], [u |-> 57, c |-> "part"], [u |-> 1633, c |-> "part"], [u |-> 2406, c |-> "part"],            \* Nd: 0 9 U+0661 U+0966
+    [u |-> 768, c |-> "part"], [u |-> 2307, c |-> "part"], [u |-> 8255, c |-> "part"], [u |-> 8204, c |-> "part"], [u |-> 8205, c |-> "part"],  \* Mn Mc Pc ZWNJ ZWJ
+    [u |-> 32, c |-> "none"], [u |-> 45, c |-> "none"], [u |-> 46, c |-> "none"], [u |-> 40, c |-> "none"], [u |-> 0, c |-> "none"],
+    [u |-> 92, c |-> "none"], [u |-> 160, c |-> "none"], [u |-> 8232, c |-> "none"], [u |-> 55296, c |-> "none"], [u |-> 56320, c |-> "none"],
+    [u |-> 183, c |-> "none"], [u |-> 8203, c |-> "none"], [u |-> 65279, c |-> "none"],                                    \* U+00B7 (Po), U+200B (Cf), BOM
+    [u |-> 903, c |-> "none"], [u |-> 8472, c |-> "none"], [u |-> 8494, c |-> "none"]                                      \* U+0387 (Po), U+2118 (Sm), U+212E (So)
+  >>
+(* otto's tables are those of Unicode UAX 31 (ES2015), not of ES5.1 7.6 *)
+IdClassOf(pr, Dv) ==
+    IF "DP26_uax31_other_id_characters" \in Dv /\ pr.u \in {183, 903} THEN "part"
+    ELSE IF "DP26_uax31_other_id_characters" \in Dv /\ pr.u \in {8472, 8494} THEN "start"
+    ELSE IF "DP27_zwnj_zwj_not_identifier_part" \in Dv /\ pr.u \in {8204, 8205} THEN "none"
+    ELSE pr.c
+RawNoneOK == {183, 903, 8472, 8494, 8203}      \* no white space, no punctuator: raw, they are no token at all (reject)
+Hex4(u, up) ==
+    LET h(x) == IF x < 10 THEN 48 + x ELSE (IF up THEN 55 ELSE 87) + x
+    IN  <<92, 117, h(u \div 4096), h((u \div 256) % 16), h((u \div 16) % 16), h(u % 16)>>
+(* spelling of the probed character: 1 escape (lower-case hex), 2 escape (upper-case), 3 raw *)
+IdChar(u, form) == IF form = 3 THEN <<u>> ELSE Hex4(u, form = 2)
+(* shapes: 1 the character alone, 2 first of two, 3 in the middle, 4 last, 5 after another escape, 6 twice *)
+IdText4(pr, shape, form) ==
+    LET x == IdChar(pr.u, form) IN
+    CASE shape = 1 -> x
+      [] shape = 2 -> x \o <<98>>
+      [] shape = 3 -> <<97>> \o x \o <<98>>
+      [] shape = 4 -> <<97>> \o x
+      [] shape = 5 -> Hex4(97, FALSE) \o x
+      [] shape = 6 -> x \o x
+IdValid(pr, shape, Dv) == IF shape \in {1, 2, 6} THEN IdClassOf(pr, Dv) = "start" ELSE IdClassOf(pr, Dv) \in {"start", "part"}
+(* a raw character that is no identifier character would be tokenised as something else: only escapes for those;  *)
+(* a raw "part" character in first position likewise (1st is a number followed by a name)                         *)
+IdFormOK(pr, shape, form) == form # 3 \/ (pr.c = "start") \/ (pr.c = "part" /\ shape \in {3, 4}) \/ (pr.u \in RawNoneOK /\ shape \in {3, 4})
+IdTok(pr, shape, form, Dv) ==
+    LET txt == IdText4(pr, shape, form)
+    IN  IF IdValid(pr, shape, Dv) THEN S!TIs("abc", txt)
+        ELSE [t |-> "num", v |-> "", nl |-> FALSE, src |-> txt]        \* no token of clause 7 (an ill-formed numeric literal stands for it)
+IdPrograms(E) == <<
+    <<TK("var"), E, TP("="), TNum(<<55>>), TP(";")>>, <<TK("function"), TI("f"), TP("("), TI("a"), TP(","), E, TP(")"), TP("{"), TP("}")>>,
+    <<TK("function"), E, TP("("), TP(")"), TP("{"), TP("}")>>, <<TK("try"), TP("{"), TP("}"), TK("catch"), TP("("), E, TP(")"), TP("{"), TP("}")>>,
+    <<E, TP(":"), TK("while"), TP("("), TI("a"), TP(")"), TK("break"), E, TP(";")>>, <<E, TP("="), TNum(<<51>>), TP(";")>>, <<TI("x"), TP("="), E, TP("+"), E, TP(";")>>,
+    <<TK("typeof"), E, TP(";")>>, <<E, TP("("), TP(")"), TP(";")>>, <<TK("for"), TP("("), TK("var"), E, TK("in"), TI("a"), TP(")"), TP(";")>>,
+    <<TI("x"), TP("."), E, TP(";")>>, <<TI("x"), TP("."), E, TP("="), TNum(<<49>>), TP(";")>>, <<TI("x"), TP("."), E, TP("."), E, TP("("), TP(")"), TP(";")>>,
+    <<TI("x"), TP("="), TP("{"), E, TP(":"), TNum(<<49>>), TP("}"), TP(";")>>,
+    <<TI("x"), TP("="), TP("{"), TI("get"), E, TP("("), TP(")"), TP("{"), TP("}"), TP(","), TI("set"), E, TP("("), TI("v"), TP(")"), TP("{"), TP("}"), TP("}"), TP(";")>> >>
+NIdP == 15
+IdLine(pr, shape, form, pg) ==
+    LET Ts == IdPrograms(IdTok(pr, shape, form, {}))[pg]
+        Tl == IdPrograms(IdTok(pr, shape, form, OpenDev))[pg]
+        es == Out(S!Classify(Ts))
+        el == Out(L!Classify(Tl))
+    IN  [fam |-> "idesc", tag |-> pr.c, src |-> S!Src(Ts, S!FixSeps(Ts, AllSep(Len(Ts), "sp"))), exp |-> es, dev |-> IF el = es THEN <<>> ELSE <<el>>, bug |-> "", run |-> ""]
+
 MInit == cs = None /\ blk \in {<<f, j>> : f \in Fams, j \in 1..NSeeds}
 MNext ==
     /\ cs = None
@@ -327,6 +393,9 @@ MNext ==
                                     cs' = [t |-> "after", fam |-> "after", T |-> AfterSeq(blk[2], ji, pi, inFn), tag |-> Placements[pi]]
          [] blk[1] = "ek" -> blk[2] <= Len(EkWords) /\ \E m \in 1..3, pg \in 1..NEkP :
                                  LET w == EkWords[blk[2]] IN cs' = [t |-> "one", fam |-> "ek", tag |-> w, T |-> EkPrograms(S!TEk(w, EscAt(w, EkPos(w, m))))[pg]]
+         [] blk[1] = "idesc" -> blk[2] <= Len(IdProbes) /\ \E shape \in 1..6, form \in 1..3, pg \in 1..NIdP :
+                                 /\ IdFormOK(IdProbes[blk[2]], shape, form)
+                                 /\ cs' = [t |-> "idesc", fam |-> "idesc", pi |-> blk[2], shape |-> shape, form |-> form, pg |-> pg]
          [] blk[1] = "objdup" -> blk[2] <= Len(KindSeq) /\ \E sp \in 1..Len(Spellings), inter \in BOOLEAN :
                                  cs' = [t |-> "one", fam |-> "objdup", tag |-> "members", T |-> ObjDupSeq(KindSeq[blk[2]], sp, inter)]
          [] blk[1] = "rejunk" -> blk[2] <= 64 /\ \E j \in {x \in 1..Len(ReJunkBodies) : x % 64 = blk[2] - 1}, fl \in {<<>>, <<103>>} :
@@ -341,5 +410,6 @@ MEmit ==
     cs = None
     \/ (cs.t = "utf8" /\ PrintT("VJSON " \o ToJson(Utf8Line(cs.ci, cs.bi))))
     \/ (cs.t = "rejunk" /\ LET ls == ReJunkLines(cs.b, cs.f) IN \A j \in 1..Len(ls) : PrintT("VJSON " \o ToJson(ls[j])))
-    \/ (cs.t \notin {"utf8", "rejunk"} /\ LET ls == MLines(cs) IN \A j \in 1..Len(ls) : PrintT("VJSON " \o ToJson(Line(ls[j]))))
+    \/ (cs.t = "idesc" /\ PrintT("VJSON " \o ToJson(IdLine(IdProbes[cs.pi], cs.shape, cs.form, cs.pg))))
+    \/ (cs.t \notin {"utf8", "rejunk", "idesc"} /\ LET ls == MLines(cs) IN \A j \in 1..Len(ls) : PrintT("VJSON " \o ToJson(Line(ls[j]))))
 =============================================================================
